@@ -88,6 +88,16 @@ Proof.
 Qed.
 Print Assumptions C01_cached_reevaluates.
 
+(* The verdict on a certificate does not depend on what the same pool object verified before (or will verify
+   after): in any sequence of verifications each verdict is the one a fresh pool gives, i.e. the documented rule.
+   (True by construction of the model, which has no history; the correspondence checks it on the code by
+   comparing every verdict of a pool with history with the verdict of a pool built afresh.) *)
+Theorem C01_history_independent : forall P bl pre x post,
+  nth (length pre) (verify_seq P bl (pre ++ x :: post)) false = is_ok (verify_g P bl (s_time x) (s_cert x) (s_sig x)) /\
+  nth (length pre) (verify_seq P bl (pre ++ x :: post)) false = accept_spec_g P bl (s_time x) (s_cert x) (s_sig x).
+Proof. exact history_independent. Qed.
+Print Assumptions C01_history_independent.
+
 (* ---- the hypotheses are satisfiable: a three-CA pool built by add_ca, one CA expired ------------------ *)
 
 Definition ex_ca (fp : N) (groups : list str) (nets : list pfx) (nb na : Z) : cert :=
